@@ -4,6 +4,7 @@
 #include <ctype.h>
 
 const int gq_alts[GQ__N] = { 6, 8, 2, 3, 5, 5, 4, 8, 4, 5 };
+int gx_nobody_cl = 0;      /* switched on by the C02 enumeration only (KF-304-LENGTH) */
 int gs_alts[GS__N] = { 2, 6, 3, 5, 5, 5 };      /* GS_STATUS has a 7th alternative (interim 103), switched on by the C02 enumeration only: see KF-INTERIM-1XX */
 
 static const char *const METHODS[] = { "GET", "POST", "HEAD", "PUT", "DELETE", "OPTIONS" };
@@ -212,6 +213,8 @@ void gx_build(const int *q, const int *s, int ord, int last, gx_msg *t, hx_buf *
     if (r10 && (fr == 1 || fr == 2)) fr = 0;          /* chunked is HTTP/1.1 only */
     t->res_tc = HTP_CODING_NO_BODY;
     if (nobody) {
+        /* fr == 2: a 304 that carries the Content-Length of the entity it would have sent (RFC 7230 3.3.2 allows it); there is still no body (C02 enumeration only) */
+        if (fr == 2 && t->status == 304 && gx_nobody_cl) { hb_puts(res, "Content-Length: 20\r\n"); addh(t->resh, &t->nresh, "Content-Length", "20", NULL); t->interim100 = 3; }
         hb_puts(res, "\r\n");
     } else {
         char body[64]; snprintf(body, sizeof body, "resp%d-body", ord); size_t bl = strlen(body);
